@@ -87,4 +87,9 @@ patch = ''.join('%s = { path = "%s" }\n' % (name, os.path.join(copy, member)) fo
 write_if_changed(os.path.join(sim, 'Cargo.toml'), tpl.replace('@PATCHES@', patch).encode('utf-8'))
 lock = os.path.join(sim, 'Cargo.lock')
 if not os.path.exists(lock):
-    shutil.copyfile(os.path.join(repo, 'Cargo.lock'), lock)
+    # the resolved lock file of the simulator workspace is committed as Cargo.lock.seed (everything in it
+    # is in the offline cargo cache); the repository's own lock file is the fallback
+    for candidate in (os.path.join(sim, 'Cargo.lock.seed'), os.path.join(repo, 'Cargo.lock')):
+        if os.path.exists(candidate):
+            shutil.copyfile(candidate, lock)
+            break
